@@ -82,5 +82,6 @@ Poll(regs) ==
 
 \* chain: a chain of nested loads exactly as deep as the configured limit still loads (load_object's depth guard is back at
 \* its value); dt: an unrelated object can be destructed (destruct's move_or_destruct restriction is not left behind)
-Probe(c1, c2, sum, chain, dt, depthOk) == /\ c1 = 1 /\ c2 = "p" /\ sum = 5 /\ chain = 1 /\ dt = 1 /\ depthOk /\ UNCHANGED vars
+\* ns: a sort_array() whose compare callback runs - and catches - a failing sort_array() of its own still sorts
+Probe(c1, c2, sum, chain, dt, ns, depthOk) == /\ c1 = 1 /\ c2 = "p" /\ sum = 5 /\ chain = 1 /\ dt = 1 /\ ns = 1 /\ depthOk /\ UNCHANGED vars
 =============================================================================
